@@ -702,6 +702,13 @@ impl Core {
     }
 }
 
+#[cfg(feature = "verif")]
+impl Core {
+    pub(crate) fn verif_context(&self) -> Arc<Context> {
+        self.context.clone()
+    }
+}
+
 #[cfg(test)]
 impl Default for Context {
     fn default() -> Self {
